@@ -22,7 +22,8 @@ def workers():
     return int(os.environ.get('VERIF_WORKERS', min(16, os.cpu_count() or 1)))
 
 
-TASK_CPU_S = float(os.environ.get('VERIF_TASK_CPU_S', '3600'))
+def task_cpu_s():
+    return float(os.environ.get('VERIF_TASK_CPU_S', '3600'))
 
 
 class TaskTimeout(Exception):
@@ -31,7 +32,10 @@ class TaskTimeout(Exception):
 
 def _on_vtalrm(signum, frame):
     raise TaskTimeout('one exploration task used more than %.0f s of CPU: the code under test does not terminate '
-                      '(or the bound is far too large)' % TASK_CPU_S)
+                      '(or the bound is far too large)' % task_cpu_s())
+
+
+_ABORT = multiprocessing.get_context('fork').Event()     # set by the first task that met code which never terminates
 
 
 class _Guarded:
@@ -42,13 +46,21 @@ class _Guarded:
         self.func = func
 
     def __call__(self, task):
+        from . import HangError
+        if _ABORT.is_set():
+            raise RuntimeError('exploration abandoned: another task met code under test that does not terminate')
         try:
             signal.signal(signal.SIGVTALRM, _on_vtalrm)
-            signal.setitimer(signal.ITIMER_VIRTUAL, TASK_CPU_S)
+            signal.setitimer(signal.ITIMER_VIRTUAL, task_cpu_s())
         except ValueError:
             return self.func(task)
         try:
             return self.func(task)
+        except (HangError, TaskTimeout) as e:
+            # tell the other workers to give up at once (every further task would wait for its own watchdog), and
+            # hand an ordinary exception to the pool (a BaseException would kill the worker and lose the task)
+            _ABORT.set()
+            raise RuntimeError('%s: %s' % (type(e).__name__, e))
         finally:
             signal.setitimer(signal.ITIMER_VIRTUAL, 0)
 
